@@ -36,6 +36,11 @@ def baseName : Base → String
   | .frozenset => "frozenset" | .deque => "deque" | .dict => "dict" | .date => "date"
   | .datetime => "datetime" | .time => "time" | .timedelta => "timedelta" | .uuid => "UUID"
 
+def bytesKOfName : String → BytesK
+  | "bytearray" => .bytearray | "memoryview" => .memoryview | _ => .bytes
+def seqKOfName : String → SeqK
+  | "tuple" => .tuple | "set" => .set | "frozenset" => .frozenset | "deque" => .deque | _ => .list
+
 def intOfJson (j : Json) : Int :=
   match j with
   | .str s => s.toInt?.getD 0
@@ -109,10 +114,10 @@ partial def decodeV (j : Json) : V :=
     | some x => .str c (str! x)
     | none =>
     match obj? j "b" with
-    | some x => .bytes (baseOfName (str! (fld j "k"))) c (unhex (str! x).toList)
+    | some x => .bytes (bytesKOfName (str! (fld j "k"))) c (unhex (str! x).toList)
     | none =>
     match obj? j "q" with
-    | some x => .seq (baseOfName (str! (fld j "k"))) c ((arr! x).map decodeV)
+    | some x => .seq (seqKOfName (str! (fld j "k"))) c ((arr! x).map decodeV)
     | none =>
     match obj? j "m" with
     | some x => .dict c ((arr! x).map fun p => match arr! p with
@@ -157,8 +162,8 @@ partial def encodeV : V → Json
   | .complex a b => Json.mkObj [("z", Json.arr #[encFloat a, encFloat b])]
   | .dec c d => withC c [("d", encDec d)]
   | .str c s => withC c [("s", Json.str s)]
-  | .bytes k c bs => withC c [("b", Json.str (hexOf bs)), ("k", Json.str (baseName k))]
-  | .seq k c xs => withC c [("q", Json.arr (xs.map encodeV).toArray), ("k", Json.str (baseName k))]
+  | .bytes k c bs => withC c [("b", Json.str (hexOf bs)), ("k", Json.str (baseName k.base))]
+  | .seq k c xs => withC c [("q", Json.arr (xs.map encodeV).toArray), ("k", Json.str (baseName k.base))]
   | .dict c kvs => withC c [("m", Json.arr (kvs.map fun (k, v) => Json.arr #[encodeV k, encodeV v]).toArray)]
   | .date c d => withC c [("date", Json.arr #[Json.num d.y, Json.num d.m, Json.num d.d])]
   | .datetime c d t => withC c [("dt", Json.arr #[Json.num d.y, Json.num d.m, Json.num d.d, Json.num t.hh,
@@ -252,8 +257,8 @@ partial def vkey : V → String
   | .complex a b => s!"z:{fkey a}:{fkey b}"
   | .dec c d => s!"d{c}:{dkey d}"
   | .str c s => s!"s{c}:{s.length}:{s}"
-  | .bytes k c bs => s!"b{baseName k}{c}:{hexOf bs}"
-  | .seq k c xs => s!"q{baseName k}{c}[" ++ ",".intercalate (xs.map vkey) ++ "]"
+  | .bytes k c bs => s!"b{baseName k.base}{c}:{hexOf bs}"
+  | .seq k c xs => s!"q{baseName k.base}{c}[" ++ ",".intercalate (xs.map vkey) ++ "]"
   | .dict c kvs => s!"m{c}" ++ "{" ++ ",".intercalate (kvs.map fun (k, v) => vkey k ++ "=" ++ vkey v) ++ "}"
   | .date c d => s!"D{c}:{d.y}-{d.m}-{d.d}"
   | .datetime c d t => s!"DT{c}:{d.y}-{d.m}-{d.d}-{t.hh}-{t.mi}-{t.ss}-{t.us}-{tzkey t.tz}"
